@@ -1,5 +1,5 @@
-"""C07 — laws of chunking: split_array, Chunk.split, concatenate, merge, Rechunker."""
-import json
+"""C07 — laws of chunking: split_array, Chunk.split, concatenate, continuity_check, Rechunker."""
+import itertools
 
 import numpy as np
 import strax
@@ -8,18 +8,82 @@ from harness import gen, impl, lib
 
 MODEL_PROPS = ["C07"]
 LEVEL = "proof"
+NONE_RUN = -999999
+
+ERRMAP = [
+    ("negative start time", 1), ("negative length", 2), ("starts early", 3), ("ends late", 4),
+    ("Need at least one chunk", 20), ("different data types", 21), ("different run ids", 22),
+    ("overlapping or out-of-order", 23), ("Target size is too small", 30), ("infinite loop", 31),
+    ("argmin of an empty", 32), ("at least one chunk to merge", 40), ("different data kinds", 41),
+    ("different run_ids", 42), ("different number of items", 43), ("different time ranges", 44),
+]
+
+
+def err_code(e):
+    if isinstance(e, strax.CannotSplit):
+        return 10
+    if isinstance(e, IndexError):
+        return 33
+    msg = str(e)
+    for k, v in ERRMAP:
+        if k in msg:
+            return v
+    return "%s:%s" % (type(e).__name__, msg[:80])
 
 
 # ------------------------------------------------------------------------------------------
-# property predicates (spec side of the theorems) evaluated on the implementation's behaviour
+# abstract chunk <-> real chunk
 # ------------------------------------------------------------------------------------------
+
+def achunk(s, e, rows, dt=1, kind=1, run=7, tgt=4):
+    return {"s": s, "e": e, "rows": [tuple(r) for r in rows], "dt": dt, "kind": kind, "run": run, "tgt": tgt}
+
+
+def enc_chunk(c):
+    return "%d %d %d %d %d %d %s" % (c["s"], c["e"], c["dt"], c["kind"],
+                                     NONE_RUN if c["run"] is None else c["run"], c["tgt"], impl.enc_rows(c["rows"]))
+
+
+def real_chunk(c, enc="endtime"):
+    a = impl.mk_array(c["rows"], enc)
+    return strax.Chunk(start=c["s"], end=c["e"], data=a, dtype=a.dtype, data_type="dt%d" % c["dt"],
+                       data_kind="k%d" % c["kind"], run_id=None if c["run"] is None else str(c["run"]),
+                       target_size_mb=(c["tgt"] + 0.5) * a.itemsize / 1e6)
+
+
+def show_real(ch):
+    run = NONE_RUN if ch.run_id is None else int(ch.run_id)
+    return "[%d %d run=%d n=%d ids=%s]" % (ch.start, ch.end, run, len(ch), ",".join(str(x) for x in impl.ids_of(ch.data)))
+
+
+def parse_show(s):
+    """'[s e run=R n=N ids=a,b]' -> (s, e, run, [ids])"""
+    s = s.strip("[]").split()
+    ids = s[4][4:]
+    return int(s[0]), int(s[1]), int(s[2][4:]), [int(x) for x in ids.split(",")] if ids else []
+
+
+def parse_shows(out):
+    return [parse_show(x) for x in out.replace("] [", "]|[").split("|")] if out else []
+
 
 def straddled(rows, y):
     return any(r[0] < y < r[1] for r in rows)
 
 
+def guarded(f):
+    try:
+        return f()
+    except Exception as e:  # noqa
+        return "err %s" % err_code(e)
+
+
+# ------------------------------------------------------------------------------------------
+# split_array
+# ------------------------------------------------------------------------------------------
+
 def spec_split_array(rows, t, early, out):
-    """Returns None if the implementation's output satisfies C07_split_array_spec, else a reason."""
+    """None if the implementation's output satisfies C07_split_array_spec, else a reason."""
     if out == "CannotSplit":
         if early:
             return "raised CannotSplit although early splitting was allowed"
@@ -27,8 +91,8 @@ def spec_split_array(rows, t, early, out):
             return "refused to split at %d although no row straddles it" % t
         return None
     nl, nr, t2 = out
-    if nl + nr != len(rows):
-        return "rows lost or duplicated"
+    if nl + nr != len(rows) or nl < 0:
+        return "rows lost, duplicated or reordered"
     l, r = rows[:nl], rows[nl:]
     if any(q[1] > t2 for q in l):
         return "a left row ends after the split time"
@@ -47,7 +111,7 @@ def spec_split_array(rows, t, early, out):
 def impl_split_array(rows, t, early, enc):
     a = impl.mk_array(rows, enc)
     try:
-        l, r, t2 = strax.split_array(a, t, allow_early_split=early)
+        l, r, t2 = strax.split_array(a, t, allow_early_split=bool(early))
     except strax.CannotSplit:
         return "CannotSplit"
     if impl.ids_of(l) + impl.ids_of(r) != [q[2] for q in rows]:
@@ -55,76 +119,91 @@ def impl_split_array(rows, t, early, enc):
     return (len(l), len(r), int(t2))
 
 
+def diff_unit(ctx, unit, cases, lines, impl_fn, spec_fn, nontrivial_fn, show_case, dist_fn=None, search_fn=None):
+    """Generic correspondence loop: run model on `lines`, impl on `cases`, diff, evaluate spec.
+    On a model/implementation disagreement without a failing input, `search_fn()` supplies further
+    cases (the thorough generator) on which only the implementation and the law are evaluated."""
+    mout = lib.run_model_parallel("C07", lines)
+    nontriv = set()
+    dist = {}
+    bad = 0
+    for idx, (case, mo) in enumerate(zip(cases, mout)):
+        out = impl_fn(case, idx)
+        if dist_fn:
+            k = dist_fn(case, out)
+            dist[k] = dist.get(k, 0) + 1
+        if nontrivial_fn(case, out):
+            nontriv.add(lib.canon(show_case(case)))
+        reason = spec_fn(case, out)
+        if reason:
+            ctx.violation(unit, "%s violates the chunking law: %s (impl %s, model %s)" % (unit, reason, out, mo),
+                          {"input": show_case(case), "impl": out, "model": mo, "unit": unit})
+            bad += 1
+        elif out != mo:
+            ctx.violation(unit, "model/implementation disagree on %s (impl %s, model %s); the law itself holds "
+                          "on this input" % (unit, out, mo),
+                          {"input": "corr:C07/%s" % unit, "case": show_case(case), "impl": out, "model": mo,
+                           "unit": unit}, no_failing_input=True)
+            bad += 1
+        if bad > 6:
+            break
+    n_search = 0
+    if bad and search_fn and not any((not v["nfi"]) and v["unit"] == unit for v in ctx.violations):
+        # search the implementation for a concrete failing input (DESIGN 2.2 step 5)
+        for j, case in enumerate(search_fn()):
+            n_search += 1
+            out = impl_fn(case, j)
+            reason = spec_fn(case, out)
+            if reason:
+                ctx.violation(unit, "%s violates the chunking law: %s (impl %s) [found by the escalated search]"
+                              % (unit, reason, out), {"input": show_case(case), "impl": out, "unit": unit})
+                break
+        ctx.notes.append("%s: escalated search evaluated %d further cases" % (unit, n_search))
+    ctx.count(unit, len(cases) + n_search, len(nontriv), dist)
+    if cases:
+        k = len(cases) // 3
+        ctx.sample({"unit": unit, "case": show_case(cases[k]), "model": mout[k]})
+    return mout
+
+
 def unit_split_array(ctx):
     cases = []
-    nmax = 4 if ctx.thorough else 3
-    grid = 6 if ctx.thorough else 6
-    if ctx.thorough or ctx.escalated():
-        nmax = 4
+    nmax = 4 if (ctx.thorough or ctx.escalated()) else 3
+    grid = 6
     for rows in gen.sorted_row_lists(nmax, grid, 3):
         for t in range(-1, grid + 4):
             for early in (0, 1):
                 cases.append((rows, t, early))
-    n_rand = 30000 if ctx.thorough else 3000
-    for _ in range(n_rand):
+    for _ in range(30000 if ctx.thorough else 3000):
         n = ctx.rng.randint(1, 40)
         rows = gen.random_rows(ctx.rng, n, 200, 12)
         lo, hi = rows[0][0] - 2, max(r[1] for r in rows) + 2
         t = ctx.rng.choice([ctx.rng.randint(lo, hi), ctx.rng.choice(rows)[0], ctx.rng.choice(rows)[1]])
         cases.append((rows, t, ctx.rng.randint(0, 1)))
     lines = ["split_array %d %d %s" % (t, early, impl.enc_rows(rows)) for rows, t, early in cases]
-    mout = lib.run_model_parallel("C07", lines)
-    nontriv = set()
-    dist = {"CannotSplit": 0, "ok_exact": 0, "ok_early_moved": 0}
-    bad = 0
-    for idx, ((rows, t, early), mo) in enumerate(zip(cases, mout)):
-        enc = "endtime" if idx % 2 == 0 else "length"
-        out = impl_split_array(rows, t, early, enc)
-        ostr = "CannotSplit" if out == "CannotSplit" else "ok %d %d %d" % out
-        if out == "CannotSplit":
-            dist["CannotSplit"] += 1
-        elif out[2] != t:
-            dist["ok_early_moved"] += 1
-        else:
-            dist["ok_exact"] += 1
-        if rows and rows[0][0] < t <= max(r[1] for r in rows) and len(rows) >= 2:
-            nontriv.add(lib.canon([rows, t, early]))
-        if ostr != mo:
-            bad += 1
-            reason = spec_split_array(rows, t, bool(early), out)
-            inp = {"rows": rows, "t": t, "early": early, "enc": enc}
-            if reason:
-                ctx.violation("split_array", "strax.split_array violates the split law: %s (impl %s, model %s)"
-                              % (reason, ostr, mo), {"input": inp, "impl": ostr, "model": mo})
-            else:
-                ctx.violation("split_array", "model/implementation disagree (impl %s, model %s) but the split "
-                              "law holds on this input" % (ostr, mo),
-                              {"input": "corr:C07/split_array", "case": inp, "impl": ostr, "model": mo},
-                              no_failing_input=True)
-            if bad > 5:
-                break
-        else:
-            # agreement: still evaluate the property predicate on the implementation (cheap)
-            reason = spec_split_array(rows, t, bool(early), out)
-            if reason:
-                ctx.violation("split_array", "split law violated on the implementation AND the model: " + reason,
-                              {"input": {"rows": rows, "t": t, "early": early, "enc": enc}, "impl": ostr})
-    ctx.count("split_array", len(cases), len(nontriv), dist)
-    ctx.sample({"unit": "split_array", "rows": cases[len(cases) // 3][0], "t": cases[len(cases) // 3][1],
-                "early": cases[len(cases) // 3][2], "model": mout[len(cases) // 3]})
-    # kernel cross-check of the extraction on a sample
+
+    def impl_fn(case, idx):
+        out = impl_split_array(case[0], case[1], case[2], "endtime" if idx % 2 == 0 else "length")
+        return out if out == "CannotSplit" else "ok %d %d %d" % out
+
+    def spec_fn(case, out):
+        o = out if out == "CannotSplit" else tuple(int(x) for x in out.split()[1:])
+        return spec_split_array(case[0], case[1], bool(case[2]), o)
+
+    mout = diff_unit(
+        ctx, "split_array", cases, lines, impl_fn, spec_fn,
+        lambda c, o: len(c[0]) >= 2 and c[0][0][0] < c[1] <= max(r[1] for r in c[0]),
+        lambda c: {"rows": c[0], "t": c[1], "early": c[2]},
+        lambda c, o: "CannotSplit" if o == "CannotSplit" else ("ok_exact" if int(o.split()[3]) == c[1] else "ok_moved"))
     idxs = sorted(ctx.rng.sample(range(len(cases)), min(150, len(cases))))
-    eqs = []
-    for i in idxs:
-        rows, t, early = cases[i]
-        eqs.append("c07_split_array_str %s (%d) %s = %s" % (coq_rows(rows), t, "true" if early else "false",
-                                                           coq_split_out(mout[i])))
+    eqs = ["c07_split_array_str %s (%d) %s = %s" % (coq_rows(cases[i][0]), cases[i][1],
+                                                    "true" if cases[i][2] else "false", coq_split_out(mout[i]))
+           for i in idxs]
     n, fails = lib.coq_crosscheck("C07", "From SV Require Import Model.Rows Model.SplitArray Model.C07Run.", eqs)
     ctx.coverage.setdefault("kernel_crosscheck", {})["split_array"] = {"equations": n, "failed_files": len(fails)}
     if fails:
         ctx.violation("split_array", "extracted model and Coq vm_compute disagree: " + fails[0][-400:],
-                      {"input": "corr:C07/split_array/extraction-crosscheck", "log": fails[0]},
-                      no_failing_input=True)
+                      {"input": "corr:C07/split_array/extraction-crosscheck", "log": fails[0]}, no_failing_input=True)
 
 
 def coq_rows(rows):
@@ -138,20 +217,509 @@ def coq_split_out(s):
     return "(Some (%s%%nat, %s%%nat, (%s)))" % (a, b, c)
 
 
+# ------------------------------------------------------------------------------------------
+# Chunk.split  (+ concatenate as its inverse)
+# ------------------------------------------------------------------------------------------
+
+def chunk_ranges(rows, slack=1):
+    lo = min([r[0] for r in rows], default=2)
+    hi = max([r[1] for r in rows], default=2)
+    for s in sorted({max(0, lo - slack), lo}):
+        for e in sorted({max(hi, s), max(hi, s) + slack}):
+            yield s, e
+
+
+def spec_chunk_split(case, out):
+    c, t0, early = case
+    rows = c["rows"]
+    t = max(min(t0, c["e"]), c["s"])
+    if out.startswith("err"):
+        if out != "err 10":
+            return "unexpected error %s from a valid chunk" % out
+        if early:
+            return "CannotSplit although early splitting was allowed"
+        if not straddled(rows, t):
+            return "refused to split at %d although no row straddles it" % t
+        return None
+    (s1, e1, r1, i1), (s2, e2, r2, i2) = parse_shows(out[3:])
+    if i1 + i2 != [r[2] for r in rows]:
+        return "rows not preserved by split"
+    if s1 != c["s"] or e2 != c["e"] or e1 != s2:
+        return "split chunks are not adjacent over the original range"
+    t2 = e1
+    if any(q[1] > t2 for q in rows[:len(i1)]) or any(q[0] < t2 for q in rows[len(i1):]):
+        return "a row is not entirely on one side"
+    if t2 > t or (not early and t2 != t):
+        return "split time wrong"
+    for y in range(t2 + 1, t + 1):
+        if not straddled(rows, y):
+            return "early split at %d although %d was admissible" % (t2, y)
+    return None
+
+
+def unit_chunk_split(ctx):
+    cases = []
+    nmax = 3 if (ctx.thorough or ctx.escalated()) else 2
+    for rows in gen.sorted_row_lists(nmax, 5, 2):
+        for s, e in chunk_ranges(rows):
+            for t in range(s - 1, e + 2):
+                for early in (0, 1):
+                    cases.append((achunk(s, e, rows), t, early))
+    for _ in range(6000 if ctx.thorough else 1000):
+        rows = gen.random_rows(ctx.rng, ctx.rng.randint(0, 25), 150, 10)
+        s, e = ctx.rng.choice(list(chunk_ranges(rows, slack=ctx.rng.randint(1, 5))))
+        pts = [s, e] + [r[0] for r in rows] + [r[1] for r in rows]
+        t = ctx.rng.choice([ctx.rng.randint(s - 2, e + 2), ctx.rng.choice(pts)])
+        cases.append((achunk(s, e, rows), t, ctx.rng.randint(0, 1)))
+    lines = ["chunk_split %d %d %s" % (t, early, enc_chunk(c)) for c, t, early in cases]
+
+    def impl_fn(case, idx):
+        c, t, early = case
+
+        def f():
+            ch = real_chunk(c, "endtime" if idx % 2 == 0 else "length")
+            c1, c2 = ch.split(t, allow_early_split=bool(early))
+            # concatenate must invert the split
+            back = strax.Chunk.concatenate([c1, c2])
+            if (back.start, back.end, impl.ids_of(back.data)) != (ch.start, ch.end, impl.ids_of(ch.data)):
+                return "CONCAT-NOT-INVERSE " + show_real(back)
+            return "ok " + show_real(c1) + " " + show_real(c2)
+        return guarded(f)
+
+    def spec_fn(case, out):
+        if out.startswith("CONCAT-NOT-INVERSE"):
+            return "concatenate([c1, c2]) does not give back the chunk that was split: " + out
+        return spec_chunk_split(case, out)
+
+    diff_unit(ctx, "chunk_split", cases, lines, impl_fn, spec_fn,
+              lambda c, o: len(c[0]["rows"]) >= 1 and c[0]["s"] < c[1] < c[0]["e"],
+              lambda c: {"chunk": c[0], "t": c[1], "early": c[2]},
+              lambda c, o: o.split()[0] + (" " + o.split()[1] if o.startswith("err") else ""))
+
+
+# ------------------------------------------------------------------------------------------
+# concatenate: acceptance / rejection verdicts
+# ------------------------------------------------------------------------------------------
+
+def clean_cuts(rows):
+    """indices i (0..n) where cutting before row i straddles nothing, with the admissible time interval"""
+    out = []
+    mx = None
+    for i in range(len(rows) + 1):
+        lo = mx
+        hi = rows[i][0] if i < len(rows) else None
+        if lo is None or hi is None or lo <= hi:
+            out.append((i, lo, hi))
+        if i < len(rows):
+            mx = rows[i][1] if mx is None else max(mx, rows[i][1])
+    return out
+
+
+def partitions(rng, rows, s, e, exhaustive=True, kmax=3):
+    """contiguous well-formed chunkings of [s,e) holding `rows`: lists of (start, end, rows)."""
+    cuts = []
+    for i, lo, hi in clean_cuts(rows):
+        lo = s if lo is None else lo
+        hi = e if hi is None else hi
+        for t in sorted({lo, hi, (lo + hi) // 2}):
+            if s <= t <= e:
+                cuts.append((t, i))
+    cuts = sorted(set(cuts))
+    res = []
+    for k in range(0, kmax):
+        for combo in itertools.combinations_with_replacement(cuts, k):
+            if any(combo[j][0] > combo[j + 1][0] or combo[j][1] > combo[j + 1][1] for j in range(len(combo) - 1)):
+                continue
+            # equal times must have equal or increasing indices consistent with rows (zero-length rows may sit on the cut)
+            bounds = [(s, 0)] + list(combo) + [(e, len(rows))]
+            ok = True
+            parts = []
+            for (t0, i0), (t1, i1) in zip(bounds[:-1], bounds[1:]):
+                part = rows[i0:i1]
+                if any(r[0] < t0 or r[1] > t1 for r in part):
+                    ok = False
+                    break
+                parts.append((t0, t1, part))
+            if ok:
+                res.append(parts)
+    if not exhaustive and len(res) > 6:
+        res = rng.sample(res, 6)
+    return res
+
+
+def spec_concat(case, out):
+    allow, cs = case
+    cs = [c for c in cs if c is not None]
+    valid = (len(cs) >= 1 and len({c["dt"] for c in cs}) == 1 and (len({c["run"] for c in cs}) == 1 or allow)
+             and all(a["e"] <= b["s"] for a, b in zip(cs[:-1], cs[1:])))
+    if out.startswith("err"):
+        if valid and len(cs) > 0:
+            return "rejected a valid ordered, non-overlapping, same-type input: " + out
+        return None
+    if not valid:
+        return "accepted out-of-order / overlapping / mismatched input"
+    s, e, run, ids = parse_show(out[3:])
+    if ids != [r[2] for c in cs for r in c["rows"]]:
+        return "rows of the concatenation are not the concatenated rows"
+    if (s, e) != (cs[0]["s"], cs[-1]["e"]):
+        return "range of the concatenation is not first start .. last end"
+    return None
+
+
+def unit_concat(ctx):
+    cases = []
+    nmax = 4 if ctx.thorough else 3
+    for rows in gen.sorted_row_lists(nmax, 5, 2):
+        for s, e in list(chunk_ranges(rows))[:2]:
+            for parts in partitions(ctx.rng, rows, s, e, exhaustive=ctx.thorough):
+                if len(parts) < 2:
+                    continue
+                cs = [achunk(a, b, p) for a, b, p in parts]
+                cases.append((0, cs))
+                v = ctx.rng.random()
+                if v < 0.10:
+                    cases.append((0, cs[::-1]))                                   # out of order
+                elif v < 0.18:
+                    cs2 = [dict(c) for c in cs]
+                    cs2[-1]["dt"] = 2
+                    cases.append((0, cs2))                                        # other data type
+                elif v < 0.28:
+                    cs2 = [dict(c) for c in cs]
+                    cs2[-1]["run"] = 8
+                    cases.append((ctx.rng.randint(0, 1), cs2))                    # other run id
+                elif v < 0.36 and cs[0]["e"] > cs[0]["s"]:
+                    cs2 = [dict(c) for c in cs]
+                    if all(r[1] <= cs2[1]["e"] for r in cs2[1]["rows"]) and cs2[1]["s"] - 1 >= 0 and \
+                            all(r[0] >= cs2[1]["s"] - 1 for r in cs2[1]["rows"]):
+                        cs2[1]["s"] -= 1                                          # overlapping ranges
+                        cases.append((0, cs2))
+                elif v < 0.44:
+                    cs2 = [dict(c) for c in cs]
+                    cs2[-1]["s"] += 0
+                    cs2[-1]["e"] += 3
+                    cs2 = cs2[:1] + [achunk(c["s"] + 3, c["e"] + 3, [(r[0] + 3, r[1] + 3, r[2], r[3]) for r in c["rows"]])
+                                     for c in cs2[1:]]                            # gap between chunks: accepted
+                    cases.append((0, cs2))
+    lines = ["concat %d %d %s" % (allow, len(cs), " ".join(enc_chunk(c) for c in cs)) for allow, cs in cases]
+
+    def impl_fn(case, idx):
+        allow, cs = case
+        return guarded(lambda: "ok " + show_real(strax.Chunk.concatenate(
+            [real_chunk(c, "endtime" if idx % 2 == 0 else "length") for c in cs], allow_superrun=bool(allow))))
+
+    def spec_fn(case, out):
+        # with allow_superrun and different run ids strax builds superrun annotations (C14); only the
+        # row / range part is judged here
+        return spec_concat(case, out)
+
+    diff_unit(ctx, "concatenate", cases, lines, impl_fn, spec_fn,
+              lambda c, o: sum(len(x["rows"]) for x in c[1]) >= 2,
+              lambda c: {"allow_superrun": c[0], "chunks": c[1]},
+              lambda c, o: o.split()[0] + (" " + o.split()[1] if o.startswith("err") else ""))
+
+
+# ------------------------------------------------------------------------------------------
+# Rechunker
+# ------------------------------------------------------------------------------------------
+
+def spec_rechunk(case, out):
+    cs = case
+    if out.startswith("err"):
+        return "the rechunker failed on a valid contiguous stream: " + out
+    outs = parse_shows(out[3:])
+    rows = [r for c in cs for r in c["rows"]]
+    if [i for (_, _, _, ids) in outs for i in ids] != [r[2] for r in rows]:
+        return "rows changed by rechunking"
+    if not outs:
+        return "no output chunk"
+    if outs[0][0] != cs[0]["s"] or outs[-1][1] != cs[-1]["e"]:
+        return "overall range changed by rechunking"
+    for a, b in zip(outs[:-1], outs[1:]):
+        if a[1] != b[0]:
+            return "rechunked stream is not contiguous"
+    in_bounds = {c["s"] for c in cs} | {c["e"] for c in cs}
+    k = 0
+    for (s, e, _, ids) in outs:
+        part = rows[k:k + len(ids)]
+        k += len(ids)
+        if any(r[0] < s or r[1] > e for r in part):
+            return "a row lies outside the chunk that carries it"
+    for (s, e, _, ids) in outs[:-1]:
+        if e not in in_bounds and straddled(rows, e):
+            return "cut at %d straddles a row" % e
+    return None
+
+
+def rechunk_impl(cs, enc):
+    rc = strax.Rechunker(rechunk=True, run_id="7")
+    outs = []
+    for c in cs:
+        outs += rc.receive(real_chunk(c, enc))
+    outs += rc.flush()
+    return "ok " + " ".join(show_real(o) for o in outs)
+
+
+def rechunk_cases(ctx, thorough):
+    cases = []
+    nmax = 5 if thorough else 4
+    # starts are multiples of 600 ns so gaps fall on both sides of the 1000 ns threshold; lengths up to
+    # 1500 ns so that a long early row can span a later inter-row distance
+    for n in range(1, nmax + 1):
+        for steps in itertools.product([0, 1, 2, 3], repeat=n - 1):
+            for lens in itertools.product([0, 100, 700, 1500], repeat=n):
+                if not thorough and ctx.rng.random() < (0.0 if n <= 3 else 0.9):
+                    continue
+                t = 600
+                rows = []
+                for i in range(n):
+                    if i:
+                        t += 600 * steps[i - 1]
+                    rows.append((t, t + lens[i], i, 0))
+                e = max(r[1] for r in rows)
+                for parts in partitions(ctx.rng, rows, 0, e + 100, exhaustive=False, kmax=3):
+                    for tgt in ([1, 2, 3] if thorough else [1, 2]):
+                        cases.append([achunk(a, b, p, tgt=tgt) for a, b, p in parts])
+    for _ in range(4000 if thorough else 400):
+        n = ctx.rng.randint(1, 30)
+        t = ctx.rng.randint(0, 50)
+        rows = []
+        for i in range(n):
+            t += ctx.rng.choice([0, 3, 400, 900, 1001, 1500, 5000])
+            rows.append((t, t + ctx.rng.choice([0, 1, 50, 600, 1200, 2500]), i, 0))
+        e = max(r[1] for r in rows) + ctx.rng.choice([0, 7])
+        parts = ctx.rng.choice(partitions(ctx.rng, rows, 0, e, exhaustive=False, kmax=4))
+        tgt = ctx.rng.randint(1, 8)
+        cases.append([achunk(a, b, p, tgt=tgt) for a, b, p in parts])
+    return cases
+
+
+def unit_rechunk(ctx):
+    cases = rechunk_cases(ctx, ctx.thorough or ctx.escalated())
+    lines = ["rechunk %d %s" % (len(cs), " ".join(enc_chunk(c) for c in cs)) for cs in cases]
+
+    def impl_fn(case, idx):
+        return guarded(lambda: rechunk_impl(case, "endtime" if idx % 2 == 0 else "length"))
+
+    diff_unit(ctx, "rechunk", cases, lines, impl_fn, spec_rechunk,
+              lambda c, o: sum(len(x["rows"]) for x in c) >= 2 and o.count("[") >= 2,
+              lambda c: {"stream": c},
+              lambda c, o: ("%d->%d chunks" % (len(c), o.count("["))) if o.startswith("ok") else o,
+              search_fn=lambda: rechunk_cases(ctx, True))
+
+
+# ------------------------------------------------------------------------------------------
+# constructor range checks and continuity_check
+# ------------------------------------------------------------------------------------------
+
+def unit_mk_chunk(ctx):
+    cases = []
+    for _ in range(4000 if ctx.thorough else 800):
+        rows = gen.random_rows(ctx.rng, ctx.rng.randint(0, 6), 30, 5)
+        lo = min([r[0] for r in rows], default=3)
+        hi = max([r[1] for r in rows], default=3)
+        s = ctx.rng.choice([lo - 1, lo, lo + 1, 0, -1])
+        e = ctx.rng.choice([hi - 1, hi, hi + 1, s - 1, s])
+        cases.append(achunk(s, e, rows))
+    lines = ["mk_chunk " + enc_chunk(c) for c in cases]
+
+    def spec_fn(c, out):
+        rows = c["rows"]
+        bad = c["s"] < 0 or c["s"] > c["e"] or any(r[0] < c["s"] or r[1] > c["e"] for r in rows)
+        if out.startswith("ok") and bad:
+            return "constructor accepted rows outside the chunk range / invalid range"
+        if out.startswith("err") and not bad:
+            return "constructor rejected a valid chunk"
+        return None
+
+    diff_unit(ctx, "mk_chunk", cases, lines,
+              lambda c, idx: guarded(lambda: "ok " + show_real(real_chunk(c, "endtime" if idx % 2 == 0 else "length"))),
+              spec_fn, lambda c, o: len(c["rows"]) >= 1, lambda c: {"chunk": c},
+              lambda c, o: o if o.startswith("err") else "ok")
+
+
+def unit_continuity(ctx):
+    cases = []
+    for _ in range(1500 if ctx.thorough else 400):
+        k = ctx.rng.randint(1, 5)
+        t = ctx.rng.randint(0, 5)
+        cs = []
+        run = 7
+        for i in range(k):
+            d = ctx.rng.randint(0, 4)
+            u = ctx.rng.random()
+            s = t if u < 0.75 else t + ctx.rng.choice([-1, 1, 2])
+            s = max(0, s)
+            if ctx.rng.random() < 0.15:
+                run += 1
+            cs.append(achunk(s, s + d, [], run=run))
+            t = s + d
+        cases.append(cs)
+    lines = ["continuity %d %s" % (len(cs), " ".join(enc_chunk(c) for c in cs)) for cs in cases]
+
+    def impl_fn(cs, idx):
+        n = 0
+        try:
+            for _ in strax.continuity_check(iter([real_chunk(c) for c in cs])):
+                n += 1
+            return "ok"
+        except ValueError as e:
+            if "not continuous" in str(e):
+                return "bad %d" % n
+            raise
+
+    def spec_fn(cs, out):
+        first_bad = None
+        for i in range(1, len(cs)):
+            if cs[i]["run"] == cs[i - 1]["run"] and cs[i]["s"] != cs[i - 1]["e"]:
+                first_bad = i
+                break
+        want = "ok" if first_bad is None else "bad %d" % first_bad
+        return None if out == want else "continuity_check gave %s, a gap/overlap scan gives %s" % (out, want)
+
+    diff_unit(ctx, "continuity_check", cases, lines, impl_fn, spec_fn, lambda c, o: len(c) >= 2,
+              lambda c: {"stream": c}, lambda c, o: o.split()[0])
+
+
+# ------------------------------------------------------------------------------------------
+# Chunk.merge (same-kind, column-wise)
+# ------------------------------------------------------------------------------------------
+
+def fname(fid):
+    return {1: "time", 2: "endtime"}.get(fid, "f%d" % fid)
+
+
+def real_kchunk(k):
+    names = [fid for fid, _ in k["cols"]]
+    dt = np.dtype([(fname(f), np.int64) for f in names])
+    a = np.zeros(k["len"], dtype=dt)
+    for fid, col in k["cols"]:
+        a[fname(fid)] = col
+    return strax.Chunk(start=k["s"], end=k["e"], data=a, dtype=dt, data_type="dt%03d" % k["dt"],
+                       data_kind="k%d" % k["kind"], run_id=str(k["run"]))
+
+
+def enc_kchunk(k):
+    out = [k["s"], k["e"], k["len"], k["kind"], k["run"], k["dt"], len(k["cols"])]
+    for fid, col in k["cols"]:
+        out += [fid, len(col)] + list(col)
+    return " ".join(str(int(x)) for x in out)
+
+
+def unit_merge(ctx):
+    cases = []
+    for _ in range(4000 if ctx.thorough else 1200):
+        k = ctx.rng.randint(2, 4)
+        n = ctx.rng.randint(0, 4)
+        t = sorted(ctx.rng.randint(0, 20) for _ in range(n))
+        e = [x + ctx.rng.randint(0, 3) for x in t]
+        s, end = 0, 30
+        dts = ctx.rng.sample(range(1, 40), k)
+        cs = []
+        for j in range(k):
+            extra = ctx.rng.sample([10, 11, 12, 13], ctx.rng.randint(0, 2))
+            cols = [(1, list(t)), (2, list(e))]
+            if ctx.rng.random() < 0.3:
+                cols = cols[::-1]
+            cols += [(f, [ctx.rng.randint(0, 99) for _ in range(n)]) for f in extra]
+            cs.append({"s": s, "e": end, "len": n, "kind": 1, "run": 7, "dt": dts[j], "cols": cols})
+        u = ctx.rng.random()
+        if u < 0.08:
+            cs[-1]["kind"] = 2
+        elif u < 0.16:
+            cs[-1]["run"] = 8
+        elif u < 0.24 and n > 0:
+            cs[-1]["len"] = n - 1
+            cs[-1]["cols"] = [(f, col[:-1]) for f, col in cs[-1]["cols"]]
+        elif u < 0.32:
+            cs[-1]["e"] = end + 1
+        cases.append((99, cs))
+    lines = ["merge %d %d %s" % (newdt, len(cs), " ".join(enc_kchunk(k) for k in cs)) for newdt, cs in cases]
+
+    def impl_fn(case, idx):
+        newdt, cs = case
+
+        def f():
+            m = strax.Chunk.merge([real_kchunk(k) for k in cs], data_type="dt%03d" % newdt)
+            inv = {"time": 1, "endtime": 2}
+            cols = ["%d:%s" % (inv.get(nm, int(nm[1:]) if nm[0] == "f" else -1), ",".join(str(int(v)) for v in m.data[nm]))
+                    for nm in m.data.dtype.names]
+            return "ok %d %d %s" % (m.start, m.end, ";".join(cols))
+        return guarded(f)
+
+    def spec_fn(case, out):
+        newdt, cs = case
+        valid = all(len({k[key] for k in cs}) == 1 for key in ("kind", "run", "len", "s", "e"))
+        if out.startswith("err"):
+            return "merge rejected equal-kind, equal-run, equal-length, equal-range inputs: " + out if valid else None
+        if not valid:
+            return "merge accepted mismatched inputs"
+        got = {}
+        for part in out.split(" ", 3)[3].split(";") if len(out.split(" ", 3)) > 3 and out.split(" ", 3)[3] else []:
+            f, col = part.split(":")
+            if int(f) in got:
+                return "duplicate column in merged chunk"
+            got[int(f)] = [int(v) for v in col.split(",")] if col else []
+        want = {}
+        for k in cs:                       # later inputs win on collisions
+            for f, col in k["cols"]:
+                want[f] = list(col)
+        if got != want:
+            return "merged columns are not the union with the last input winning"
+        return None
+
+    diff_unit(ctx, "merge", cases, lines, impl_fn, spec_fn, lambda c, o: c[1][0]["len"] >= 1,
+              lambda c: {"new_dtype": c[0], "chunks": c[1]}, lambda c, o: o.split()[0] + (" " + o.split()[1] if o.startswith("err") else ""))
+
+
+UNITS = {"merge": unit_merge, "split_array": unit_split_array, "chunk_split": unit_chunk_split, "concatenate": unit_concat,
+         "rechunk": unit_rechunk, "mk_chunk": unit_mk_chunk, "continuity_check": unit_continuity}
+
+
 def run(ctx):
     ctx.coverage["rule"] = (
-        "split_array: exhaustive over all start-sorted row lists of <=3 (thorough 4) rows on a 6-point grid with "
-        "lengths 0..3, every split time -1..9, both allow_early_split, plus seeded random clustered rows (<=40); "
-        "non-trivial = at least two rows and the split time strictly after the first start and not beyond the "
-        "last end; distinct by canonical JSON of (rows, t, early).")
-    unit_split_array(ctx)
+        "Per unit: exhaustive small scope (all start-sorted row lists of <=3/4 rows on a 5-6 point grid with lengths "
+        "0..3, all split times from one below to one above the range, both allow_early_split; all contiguous "
+        "partitions at admissible cut times for concatenate / rechunker with starts on multiples of 600 ns and "
+        "targets 1..3 rows) plus seeded random clustered rows (<=40) and a malformed stream (out-of-order, "
+        "overlapping, mismatched type/run, rows outside range). Non-trivial: >=2 rows and a split time strictly "
+        "inside the data (split units); >=2 rows in >=2 chunks (concatenate/rechunk). Distinct by canonical JSON.")
+    ctx.assumptions += ["rows carry (time, endtime|length*dt, id, channel); both endtime encodings alternate",
+                        "sub-run/super-run annotations are covered by property C14's model"]
+    for name, fn in UNITS.items():
+        fn(ctx)
 
 
 def replay(ctx, obj):
     r = obj["replay"]
-    inp = r.get("case") or r.get("input")
-    rows = [tuple(x) for x in inp["rows"]]
-    out = impl_split_array(rows, inp["t"], inp["early"], inp.get("enc", "endtime"))
-    reason = spec_split_array(rows, inp["t"], bool(inp["early"]), out)
-    print("impl:", out, "spec:", reason or "holds")
+    unit = r.get("unit") or obj.get("unit")
+    case = r.get("case") if isinstance(r.get("input"), str) else r.get("input")
+    if unit == "split_array":
+        rows = [tuple(x) for x in case["rows"]]
+        out = impl_split_array(rows, case["t"], case["early"], "endtime")
+        reason = spec_split_array(rows, case["t"], bool(case["early"]), out)
+    elif unit == "chunk_split":
+        c = case["chunk"]
+        c["rows"] = [tuple(x) for x in c["rows"]]
+        def f():
+            c1, c2 = real_chunk(c).split(case["t"], allow_early_split=bool(case["early"]))
+            return "ok " + show_real(c1) + " " + show_real(c2)
+        out = guarded(f)
+        reason = spec_chunk_split((c, case["t"], case["early"]), out)
+    elif unit == "rechunk":
+        cs = case["stream"]
+        for c in cs:
+            c["rows"] = [tuple(x) for x in c["rows"]]
+        out = guarded(lambda: rechunk_impl(cs, "endtime"))
+        reason = spec_rechunk(cs, out)
+    elif unit == "concatenate":
+        cs = case["chunks"]
+        for c in cs:
+            c["rows"] = [tuple(x) for x in c["rows"]]
+        out = guarded(lambda: "ok " + show_real(strax.Chunk.concatenate([real_chunk(c) for c in cs],
+                                                                        allow_superrun=bool(case["allow_superrun"]))))
+        reason = spec_concat((case["allow_superrun"], cs), out)
+    else:
+        print("replay not supported for unit", unit)
+        return 0
+    print("impl:", out, "| law:", reason or "holds")
     return 1 if reason else 0
